@@ -34,7 +34,7 @@ pub struct MT940 {
     pub field_60f: Field60F,
 
     /// Statement lines (1-500 occurrences)
-    #[serde(rename = "#")]
+    #[serde(rename = "#", default)]
     pub statement_lines: Vec<MT940StatementLine>,
 
     /// Closing Balance (Field 62F)
